@@ -25,8 +25,15 @@ def suite_ok(d):
     bad = [t for t in BASE if res.get(t) != "pass"]
     return len(bad) == 0, bad[:5]
 
+STAGE = os.environ.get("SEED_STAGE", "/tmp/seedstage")   # <STAGE>/<Cxx>/changeN.diff or <STAGE>/<Cxx>/out/changeN.diff
+OFFSET = int(os.environ.get("SEED_OFFSET", "0"))         # stored as <Cxx>-<N+OFFSET>
+
+def stagedir(pid):
+    d = f"{STAGE}/{pid}"
+    return d + "/out" if os.path.isdir(d + "/out") else d
+
 def confirm(pid, n):
-    st = f"/tmp/seedstage/{pid}"
+    st = stagedir(pid)
     patch, demo = f"{st}/change{n}.diff", f"{st}/demo{n}_test.go"
     if not (os.path.exists(patch) and os.path.exists(demo)):
         return pid, n, "missing files", None
@@ -72,9 +79,9 @@ def confirm(pid, n):
 
 def main():
     todo = []
-    for pid in sorted(os.listdir("/tmp/seedstage")):
+    for pid in sorted(x for x in os.listdir(STAGE) if os.path.isdir(f"{STAGE}/{x}")):
         for n in (1, 2):
-            if os.path.exists(f"/verif/seeded/{pid}-{n}/meta.json") and "--force" not in sys.argv:
+            if os.path.exists(f"/verif/seeded/{pid}-{n+OFFSET}/meta.json") and "--force" not in sys.argv:
                 continue
             if len(sys.argv) > 1 and not sys.argv[1].startswith("--") and pid not in sys.argv[1:]:
                 continue
@@ -84,14 +91,14 @@ def main():
             print(pid, n, status, flush=True)
             if status != "confirmed":
                 continue
-            out = f"/verif/seeded/{pid}-{n}"
+            out = f"/verif/seeded/{pid}-{n+OFFSET}"
             os.makedirs(out, exist_ok=True)
-            st = f"/tmp/seedstage/{pid}"
+            st = stagedir(pid)
             shutil.copy(f"{st}/change{n}.diff", f"{out}/patch.diff")
             shutil.copy(f"{st}/demo{n}_test.go", f"{out}/demo_test.go")
             if os.path.exists(f"{st}/change{n}.md"):
                 shutil.copy(f"{st}/change{n}.md", f"{out}/notes.md")
-            meta = {"id": f"{pid}-{n}", "property": pid, "title": props[pid]["title"], "source": "independent sub-agent given only the property text and a scratch worktree",
+            meta = {"id": f"{pid}-{n+OFFSET}", "property": pid, "title": props[pid]["title"], "source": "independent sub-agent given only the property text and a scratch worktree",
                     "needs_to_manifest": "see notes.md (written by the author of the change)",
                     "confirmed_by": "tools/confirm_seeds.py on a scratch copy of /repo HEAD: go build ./... ok; 700 stable baseline tests still pass; demo test passes on the unchanged tree and fails with the change",
                     "confirmation": info, "detected_by": None}
